@@ -324,6 +324,10 @@ func (r *recWitness) Update(_ context.Context, id string, old uint64, cp []byte,
 type recTransport struct{ paths []string }
 
 func (t *recTransport) RoundTrip(r *http.Request) (*http.Response, error) {
+	// As net/http's transport: a request whose context has ended fails.
+	if err := r.Context().Err(); err != nil {
+		return nil, err
+	}
 	t.paths = append(t.paths, r.URL.EscapedPath())
 	rec := httptest.NewRecorder()
 	rec.WriteHeader(200)
@@ -386,6 +390,34 @@ func c12Identity(run *ev.Run, u *uni.U) int64 {
 		}
 		e.Close()
 		run.Distinct("identity|" + o)
+	}
+	// All of them configured at once, plus origins that are prefixes /
+	// extensions of one another: the bastion endpoint hands every checkpoint to
+	// the witness under ITS origin's ID - every time (the handler's log lookup
+	// may iterate a map: 25 submissions each).
+	{
+		all := append(append([]string{}, origins...), "verif.example/ci/2", "verif.example/ci/20", "verif.example/ci/2/x", "verif.example/ci", "ab", "verif.example/log-a/", "upper ")
+		var cfgs []config.Log
+		for _, o := range all {
+			cl, err := config.NewLog(o, u.K1.VKey, "http://x.example/")
+			if err == nil {
+				cfgs = append(cfgs, cl)
+			}
+		}
+		rw := &recWitness{cp: map[string][]byte{}}
+		h := bastion.VerifNewHandler(rw, cfgs, u.W1.CosigVerif, rate.Inf, 1, true)
+		for _, o := range all {
+			cp := u.Sign(uni.Body(o, 1, u.Main.Root(1)), u.K1.Signer)
+			for k := 0; k < 25; k++ {
+				rw.ids = nil
+				c10Serve(h, c10Body(0, nil, cp))
+				n++
+				if len(rw.ids) != 1 || rw.ids[0] != "update:"+f_log.ID(o) {
+					run.Report("id-mismatch bastion many-logs", fmt.Sprintf("%d logs configured (some origins are prefixes of others): a checkpoint of origin %q reached the witness as %v, want update:%s", len(cfgs), o, rw.ids, f_log.ID(o)), map[string]any{"kind": "identity", "origin": o})
+					break
+				}
+			}
+		}
 	}
 	// Configurations: all lists of <= 3 entries over {o1,o2} x {K1,K2}.
 	type ent struct{ o, k string }
